@@ -37,7 +37,9 @@ def _utf16_len(s: str) -> int:
 def _utf16_to_codepoint_index(s: str, utf16_idx: int) -> Optional[int]:
     """Convert UTF-16 index to code point index.
 
-    Returns None if utf16_idx points to the middle of a surrogate pair.
+    An index in the middle of a surrogate pair names the character the pair
+    encodes (the search starts at that character). Returns None if utf16_idx
+    is negative or beyond the end of the string.
     """
     if utf16_idx < 0:
         return None
@@ -49,9 +51,8 @@ def _utf16_to_codepoint_index(s: str, utf16_idx: int) -> Optional[int]:
         cp = ord(ch)
         if cp > 0xFFFF:
             utf16_pos += 2
-            # Check if pointing to middle of surrogate pair
             if utf16_pos > utf16_idx:
-                return None  # Invalid - in middle of surrogate pair
+                return cp_idx  # the second half of this character
         else:
             utf16_pos += 1
 
